@@ -440,12 +440,15 @@ func (vc *VC) effectTag(key string) string {
 // logEffect appends one event to the trace.
 func (vc *VC) logEffect(st *State, key string, recv string, strs []string, err string, payload string) {
 	tc, lc := vc.traceCells(st)
-	s1, s2 := "\"\"", "\"\""
+	s1, s2, s3 := "\"\"", "\"\"", "\"\""
 	if len(strs) > 0 {
 		s1 = strs[0]
 	}
 	if len(strs) > 1 {
 		s2 = strs[1]
+	}
+	if len(strs) > 2 {
+		s3 = strs[2]
 	}
 	if recv == "" {
 		recv = "inil"
@@ -456,7 +459,7 @@ func (vc *VC) logEffect(st *State, key string, recv string, strs []string, err s
 	if payload == "" {
 		payload = "0"
 	}
-	ev := fmt.Sprintf("(mk_ev %s %s %s %s %s %s)", vc.effectTag(key), recv, s1, s2, err, payload)
+	ev := fmt.Sprintf("(mk_ev %s %s %s %s %s %s %s)", vc.effectTag(key), recv, s1, s2, s3, err, payload)
 	ln := st.cells[lc]
 	st.cells[tc] = vc.define("trace", "(Array Int Event)", fmt.Sprintf("(store %s %s %s)", st.cells[tc], ln, ev))
 	st.cells[lc] = vc.define("tlen", "Int", fmt.Sprintf("(+ %s 1)", ln))
